@@ -1,7 +1,12 @@
 /-
-  The instance of the scalar-text parameter `sh` (`fmt.Sprintf("%v", x)`) used by the executable families:
-  integers in decimal, booleans `true`/`false`, floats through the table obtained by executing `fmt` on the sample
-  values (Generated/Search.lean) — the generators draw floats only from that table.  Core Lean only.
+  The instances of the scalar-text parameter `sh` used by the executable families:
+    * `showScalar`   = `fmt.Sprintf("%v", x)` (the text the secret scan hands to the detectors): integers in decimal,
+                       booleans `true`/`false`, floats through the table obtained by executing `fmt` on the sample values
+                       (Generated/Search.lean) — the generators draw floats only from that table;
+    * `searchScalar` = search.go `scalarText` (fix search/05), the text a scalar is SEARCHED as: `%v`, except that a
+                       float64 with 1e6 ≤ |x| < 1e15 is written positionally (`1000000`, `1234567.89`), as PostgreSQL
+                       prints numeric / float8 / JSON numbers of that size (`%v` has `1e+06`).
+  Core Lean only.
 -/
 import PgVerif.Spec.Search
 import PgVerif.Generated.Search
@@ -20,5 +25,13 @@ def showScalar : GoVal → Bytes
   | .f64 b => tableText Generated.Search.f64Text b
   | .f32 b => tableText Generated.Search.f32Text b
   | _ => []
+
+/-- search.go: scalarText -/
+def searchScalar : GoVal → Bytes
+  | .f64 b =>
+    match Generated.Search.f64SearchText.find? (·.1 == b) with
+    | some (_, s) => strBytes s
+    | none => showScalar (.f64 b)
+  | v => showScalar v
 
 end PgVerif.Model.SearchShow
